@@ -13,7 +13,7 @@ LEVEL_TEXT = ("Static structural proof of necessary conditions: (R18.1) in creat
               "before any run; (R18.5) a backup becomes listed only past the two-entry test and both consistency "
               "raises. Byte identity, interruption at arbitrary I/O steps (the record write itself is not atomic) and "
               "idempotence of re-running are NOT decided.")
-LEVEL_EXTRA = 'Added after the seeded evaluation: (R18.2) the name tested by the same-name refusal is the name used by every write (no re-definition in between); (R18.4) the data tree is scanned (file list, task parsing) only after the restore. The same-name refusal also consults the file system; the task filter is not a substring test. (R18.5) a backup key is the relative path joined unchanged. (R18.6) no case normalisation of path components in get_path_components / get_file_key. (R18.7) every caller of the consistency check tests both discrepancy lists and raises.'
+LEVEL_EXTRA = 'Added after the seeded evaluation: (R18.2) the name tested by the same-name refusal is the name used by every write (no re-definition in between); (R18.4) the data tree is scanned (file list, task parsing) only after the restore. The same-name refusal also consults the file system; the task filter is not a substring test. (R18.5) a backup key is the relative path joined unchanged. (R18.6) no case normalisation of path components in get_path_components / get_file_key. (R18.7) every caller of the consistency check tests both discrepancy lists and raises. (R18.8) every restore in the CLI passes the task names.'
 
 COPY_NAMES = ("copy", "copy2", "copyfile", "copytree", "move")
 
@@ -373,6 +373,24 @@ def run(ctx):
                       "the result of the consistency check is used without testing both discrepancy lists (files not recorded / recorded "
                       "files missing): a backup whose recorded files are missing gets listed", desc="%s tests both discrepancy lists" % m.short)
     ctx.floor("R18.7", "callers of _check_backup_consistency", n_cc, 1)
+
+    # ---------------- R18.8: the CLI hands its task selection on to every restore
+    ctx.rule("R18.8", "every restore_backup call in the remodeling CLI passes the task names taken from the arguments")
+    n_rest = 0
+    for f in prog.functions.values():
+        if not f.module.name.startswith("hed.tools.remodeling.cli"):
+            continue
+        for c in walk_no_nested(f.node):
+            if isinstance(c, ast.Call) and call_name(c) == "restore_backup":
+                n_rest += 1
+                ctx.saw(f)
+                a = cg.arg(c, "task_names")
+                if a is None and id(c) not in cg.param_order and len(c.args) > 1:
+                    a = c.args[1]
+                ctx.check(a is not None and "task" in norm(a), "R18.8", f.qualname, c, loc(f, c),
+                          "the restore is made without the task selection: a run restricted to one task restores every backed-up file "
+                          "first, silently reverting files of the other tasks", desc="%s: restore receives the task names" % f.short)
+    ctx.floor("R18.8", "restore_backup calls in the CLI", n_rest, 2)
 
 
 def _negated(test):
